@@ -89,7 +89,7 @@ def queries(d, n=3):
 
 
 PREFIX_QUERIES = ["", "a", "A", "x", "X", "z", "B", "a ", "ax"]
-IDENTIFIERS = ["", "1", "x", ":", "/", "1:2", "a:1", " "]
+IDENTIFIERS = ["", "1", "x", ":", "/", "1:2", "a:1", " ", "y", "Xa"]   # the last two matter to the identifier hook of the subclass runs
 
 
 def build_merge_late(recs, delim, probe=None):
@@ -133,7 +133,7 @@ def dip_configs():
     ]
 
 
-def units(tier, seed, nchunks=128, hist_depth=None, delim_in_prefix=False):
+def units(tier, seed, nchunks=128, hist_depth=None, delim_in_prefix=False, hook=False):
     cfgs = configurations(tier)
     out = [{"tier": tier, "cfgs": [recs_to_json(c) for c in ch]} for ch in chunks(cfgs, nchunks)]
     # a small configuration set under unusual delimiters
@@ -144,6 +144,11 @@ def units(tier, seed, nchunks=128, hist_depth=None, delim_in_prefix=False):
     out.append({"tier": tier, "cfgs": [recs_to_json(c) for c in small], "delims": EXOTIC_DELIMS, "qlen": 2})
     if delim_in_prefix:
         out.append({"tier": tier, "cfgs": [recs_to_json(c) for c in dip_configs()], "delims": DELIMS})
+    if hook:
+        # a subclass using the documented identifier hook, on a subset of the configurations
+        sub = [c for i, c in enumerate(cfgs) if i % 9 == 0][:400]
+        for ch in chunks(sub, 8):
+            out.append({"tier": tier, "cfgs": [recs_to_json(c) for c in ch], "delims": [":", "/"], "hook": True, "qlen": 2})
     if hist_depth is None:
         hist_depth = 2
     if hist_depth:
@@ -226,7 +231,7 @@ def run_case(check_config, case, ctx=None):
     recs = rewrite(recs_from_json(case["recs"]), d)
     model = Model(recs, d)
     Q = queries(d, case.get("qlen", 3))
-    modes = [case["mode"]] if case.get("mode") else ["ctor", "merge-late", "chain-of-singletons", "sub-by-synonym"]
+    modes = [case["mode"]] if case.get("mode") else ["ctor", "merge-late", "chain-of-singletons", "sub-by-synonym", "shared-list"] + (["subclass-hook"] if case.get("hook") else [])
     for mode in modes:
         if mode == "merge-late" and not any(r.psyn or r.usyn for r in recs):
             continue
@@ -236,9 +241,23 @@ def run_case(check_config, case, ctx=None):
                 continue
         where = f"records {recs_to_json(recs)} delimiter {d!r} mode {mode}"
         inputs = []
+        if mode == "shared-list" and (d != ":" or case.get("qlen")):
+            continue
+        cur_model = model
         try:
             if mode == "ctor":
                 conv = Converter([to_record(r) for r in recs], delimiter=d)
+            elif mode == "shared-list":
+                from ..impl import build_shared_list, model_of
+
+                conv = build_shared_list(recs, d)
+                # whatever conv.records lists is what the converter must answer for
+                cur_model = Model(model_of(conv).records, d)
+            elif mode == "subclass-hook":
+                from ..impl import HookedConverter, ident_hook
+
+                conv = HookedConverter([to_record(r) for r in recs], delimiter=d)
+                cur_model = Model(recs, d, hook=ident_hook)
             elif mode == "merge-late":
                 conv = build_merge_late(recs, d)
             elif mode == "chain-of-singletons":
@@ -259,7 +278,7 @@ def run_case(check_config, case, ctx=None):
             if mode == "ctor":
                 ctx.count("configurations")
         before = len(fails)
-        check_config(conv, model, Q, fails, where, ctx if mode == "ctor" else None)
+        check_config(conv, cur_model, Q, fails, where, ctx if mode == "ctor" else None)
         for c_in, m_in in inputs:
             # the converters the result was derived from still answer for themselves
             if len(fails) == before:
@@ -286,6 +305,9 @@ def run_unit_with(check_config, prop, unit, ctx):
             case = {"recs": recs, "delim": d}
             if unit.get("qlen"):
                 case["qlen"] = unit["qlen"]
+            if unit.get("hook"):
+                case["hook"] = True
+                case["mode"] = "subclass-hook"
             fails = run_case(check_config, case, ctx)
             if len(recs) >= 2:
                 ctx.sample(case)
